@@ -14,14 +14,12 @@ use core::ops::{Add, AddAssign, Sub, SubAssign};
 
 use crate::{
     errors::HifitimeError, Duration, Epoch, Polynomial, TimeScale, Unit, Weekday,
-    NANOSECONDS_PER_DAY,
+    DAYS_PER_CENTURY_I64, NANOSECONDS_PER_DAY,
 };
 
 #[cfg(not(feature = "std"))]
 #[allow(unused_imports)] // Import is indeed used.
 use num_traits::Float;
-
-use super::rem_euclid_f64;
 
 impl Epoch {
     /// Returns the minimum of the two epochs.
@@ -249,13 +247,11 @@ impl Epoch {
     /// You _probably_ do not want to use this. You probably either want `weekday()` or `weekday_utc()`.
     /// Several time scales do _not_ have a reference day that's on a Monday, e.g. BDT.
     pub fn weekday_in_time_scale(&self, time_scale: TimeScale) -> Weekday {
-        (rem_euclid_f64(
-            self.to_duration_in_time_scale(time_scale)
-                .to_unit(Unit::Day),
-            Weekday::DAYS_PER_WEEK,
-        )
-        .floor() as u8)
-            .into()
+        // Integer day count: a floating point day count rounds the last nanoseconds of a day up to the next day
+        let (centuries, nanoseconds) = self.to_duration_in_time_scale(time_scale).to_parts();
+        let days = i128::from(centuries) * i128::from(DAYS_PER_CENTURY_I64)
+            + i128::from(nanoseconds / NANOSECONDS_PER_DAY);
+        (days.rem_euclid(Weekday::DAYS_PER_WEEK_I128) as u8).into()
     }
 
     #[must_use]
